@@ -141,6 +141,19 @@ fn parts_cast_local_idx(pos1: &Iso, vel1: &V, g1: &dyn Shape, pos2: &Iso, vel2: 
     Ok(best)
 }
 
+/// A dispatcher that records which parts of a height field the cell walk hands over (and answers `None`, so that the
+/// walk is never cut short by a hit): the trace of `cast_shapes_heightfield_shape`.
+struct RecDispatcher { log: std::sync::Mutex<Vec<Box<dyn Shape>>> }
+impl query::QueryDispatcher for RecDispatcher {
+    fn intersection_test(&self, _: &Iso, _: &dyn Shape, _: &dyn Shape) -> Result<bool, query::Unsupported> { Err(query::Unsupported) }
+    fn distance(&self, _: &Iso, _: &dyn Shape, _: &dyn Shape) -> Result<f64, query::Unsupported> { Err(query::Unsupported) }
+    fn contact(&self, _: &Iso, _: &dyn Shape, _: &dyn Shape, _: f64) -> Result<Option<query::Contact>, query::Unsupported> { Err(query::Unsupported) }
+    fn closest_points(&self, _: &Iso, _: &dyn Shape, _: &dyn Shape, _: f64) -> Result<query::ClosestPoints, query::Unsupported> { Err(query::Unsupported) }
+    fn cast_shapes(&self, _: &Iso, _: &V, g1: &dyn Shape, _: &dyn Shape, _: ShapeCastOptions) -> Result<Option<ShapeCastHit>, query::Unsupported> {
+        self.log.lock().unwrap().push(g1.clone_dyn()); Ok(None)
+    }
+    fn cast_shapes_nonlinear(&self, _: &NonlinearRigidMotion, _: &dyn Shape, _: &NonlinearRigidMotion, _: &dyn Shape, _: f64, _: f64, _: bool) -> Result<Option<ShapeCastHit>, query::Unsupported> { Err(query::Unsupported) }
+}
 pub fn exec(func: &str, a: &mut Args) -> String {
     match func {
         "ray_ball" => {
@@ -376,6 +389,18 @@ pub fn exec(func: &str, a: &mut Args) -> String {
             }
             s
         }
+        // the GJK-route cast itself (both shapes support-mapped); the taps that follow the options in the argument list are
+        // for the model only
+        "smsm" => {
+            let pos12 = dx::iso(a); let v = dx::v(a); let o = opts(a);
+            while a.tok() != "shapes" {}
+            let g1 = shape(a); let g2 = shape(a);
+            match (g1.as_support_map(), g2.as_support_map()) {
+                (Some(s1), Some(s2)) => fohit(&px::query::details::cast_shapes_support_map_support_map(&pos12, &v, s1, s2, o)),
+                _ => "unsupported".into(),
+            }
+        }
+        "hfwalk" => hfwalk_exec(a),
         _ => "nofn".into(),
     }
 }
